@@ -12,7 +12,7 @@ from ..common import Ev, Violation
 from ..harness.session import Session
 from ..pipelang import model as M
 from ..pipelang import gen as G
-from . import c01, c11
+from . import c01, c09, c10, c11
 
 ID = "C15"
 LEVEL = "exploration"
@@ -20,7 +20,9 @@ RULE = (
     "Hypothesis-generated PipeLang programs x stage list = prefix of [analysis, store_inspect, eval, store_commit, "
     "path_commit] of length 0..5 spelled as lower/upper/mixed-case names or ProcessingStage members x store {memory, local, "
     "local+LRU} x history {fresh store, after a full evaluation of an earlier version of the program, restricted run "
-    "repeated twice}. Checked: prefixes without 'eval' run no user code, store no blob, commit no path, leave the store "
+    "repeated twice}; one case in six is a pipeline that loads a path produced by an earlier evaluation, and in some runs that include "
+    "the eval stage a user function raises (preferably after other kept work has completed). Checked: whatever the store kind, every kept "
+    "path serves through dds.load exactly what it served before a run without 'path_commit';  prefixes without 'eval' run no user code, store no blob, commit no path, leave the store "
     "directories byte-identical and return None; prefixes with 'eval' but without 'path_commit' commit no path and leave the "
     "data directory unchanged; the signatures the restricted run reports and those of a later full run are equal to the "
     "ones of a twin history without the restricted run, the later full run returns the same value and (analysis-only) "
@@ -38,9 +40,16 @@ def case_strategy(opts):
 
     @st.composite
     def gen(draw):
-        prog = draw(G.programs(opts))
-        ents = [e for e in G.entries(prog) if e[1] == "eval"]
-        root = draw(st.sampled_from(ents[-2:] if len(ents) > 1 else ents))[0]
+        pre_entry = None
+        if draw(st.integers(0, 5)) == 0:
+            # a pipeline that loads a path produced by an earlier evaluation (the producer is evaluated first)
+            spec = [draw(st.sampled_from(["root", "helper", "kept", "kept", "kept_helper", "kept_inline_arg"])), "earlier_eval",
+                    draw(st.sampled_from(["data", "keepcall"])), draw(st.integers(0, 3)), draw(st.booleans())]
+            prog, root, pre_entry, _rk = c09.build(*spec)
+        else:
+            prog = draw(G.programs(opts))
+            ents = [e for e in G.entries(prog) if e[1] == "eval"]
+            root = draw(st.sampled_from(ents[-2:] if len(ents) > 1 else ents))[0]
         n = draw(st.sampled_from([0, 1, 1, 2, 2, 3, 3, 4, 4, 5]))
         spell = draw(st.sampled_from(["lower", "upper", "mixed", "enum"]))
         kind, cache = draw(st.sampled_from(STORES))
@@ -48,7 +57,16 @@ def case_strategy(opts):
         old = prog
         for _ in range(draw(st.integers(1, 2))):
             old = M.apply_edit(old, draw(G.edits(old, root, kinds=["setvar", "bump", "setlit"], opts=opts)))
-        return {"prog": prog, "old": old, "root": root, "nstages": n, "spell": spell, "store": [kind, cache], "history": history}
+        case = {"prog": prog, "old": old, "root": root, "nstages": n, "spell": spell, "store": [kind, cache], "history": history}
+        if pre_entry is not None:
+            case["pre_entry"] = pre_entry
+        elif n in (3, 4) and draw(st.integers(0, 2)) == 0:
+            # a user function raises during the restricted run (preferably after other kept work has completed)
+            _, it = M.expected_value(prog, root)
+            names = list(dict.fromkeys(x for x in it.executed if not x.endswith(".m")))
+            good = [nm for nm in names if all(c10.completed_before_failure(prog, root, nm) or (None, None))]
+            case["fail"] = {"node": draw(st.sampled_from(good or names)), "exc": draw(st.sampled_from(["ValueError", "KeyError", "KeyboardInterrupt", "CustomError"]))}
+        return case
 
     return gen()
 
@@ -71,16 +89,25 @@ def _decode_stages(stages):
     return [ProcessingStage[s["$stage"].upper()] if isinstance(s, dict) else s for s in stages]
 
 
-def eval_with_stages(sess, root, stages):
+def eval_with_stages(sess, root, stages, fail=None):
     f = sess.prog["funcs"][root]
     return sess.w.call("call", module="vf.props.c15", func="_eval_stages",
-                       args=[M.modname(sess.prog, f["mod"]), f["name"], stages])
+                       args=[M.modname(sess.prog, f["mod"]), f["name"], stages, fail])
 
 
-def _eval_stages(module, func, stages):
+def _eval_stages(module, func, stages, fail=None):
     from ..harness import worker
 
-    return worker.cmd_eval(module, func, "eval", opts={"dds_stages": _decode_stages(stages)})
+    return worker.cmd_eval(module, func, "eval", opts={"dds_stages": _decode_stages(stages)}, fail=fail)
+
+
+def path_state(sess, paths):
+    """what every path serves, through the public API (the only view of the paths of a memory store)"""
+    out = {}
+    for p in paths:
+        r = sess.load(p)
+        out[p] = ("value", r["value"]) if r["exc"] is None else ("absent",)
+    return out
 
 
 def run_history(case, scratch, with_restricted):
@@ -89,9 +116,18 @@ def run_history(case, scratch, with_restricted):
     out = {}
     try:
         prog, root = case["prog"], case["root"]
+        pre = case.get("pre_entry")
+
+        def produce(p):
+            if pre is not None:
+                r0 = sess.eval(pre, "direct" if M.is_data(p["funcs"][pre]) else "eval")
+                if r0["exc"] is not None:
+                    raise Violation(f"evaluating the producer raised {r0['exc']['type']}: {r0['exc']['msg'][:200]}", case)
+
         if case["history"] in ("after_old", "twice"):
             sess.write(case["old"])
             sess.start()
+            produce(case["old"])
             r = sess.eval(root, "eval")
             if r["exc"] is not None:
                 raise Violation(f"full evaluation of the earlier version raised {r['exc']['type']}: {r['exc']['msg'][:200]}", case)
@@ -99,18 +135,23 @@ def run_history(case, scratch, with_restricted):
         else:
             sess.write(prog)
             sess.start()
+        produce(prog)
         stages = spell_stages(case["nstages"], case["spell"])
+        all_paths = sorted({s_["path"] for p_ in (prog, case["old"]) for s_ in M.kept_sites(p_, root)} | ({"/src/v"} if pre is not None else set()))
         if with_restricted:
             reps = 2 if case["history"] == "twice" else 1
             for rep in range(reps):
                 before = c11.snapshot(sess.store_dir)
                 data_before = c11.snapshot(os.path.join(sess.store_dir, "data"))
-                r = eval_with_stages(sess, root, stages)
+                paths_before = path_state(sess, all_paths) if kind != "noop" else {}
+                r = eval_with_stages(sess, root, stages, case.get("fail"))
                 after = c11.snapshot(sess.store_dir)
                 data_after = c11.snapshot(os.path.join(sess.store_dir, "data"))
+                paths_after = path_state(sess, all_paths) if kind != "noop" else {}
                 out["restricted"] = r
                 out["dirs_unchanged"] = before == after
                 out["data_unchanged"] = data_before == data_after
+                out["paths_changed"] = sorted(p for p in all_paths if paths_before.get(p) != paths_after.get(p))
                 judge_restricted(case, r, out, rep)
         full = sess.eval(root, "eval")
         out["full"] = full
@@ -126,8 +167,12 @@ def run_history(case, scratch, with_restricted):
 def judge_restricted(case, r, out, rep):
     n = case["nstages"]
     what = f"stages={spell_stages(n, case['spell'])} history={case['history']} store={case['store']} (run {rep})"
-    if r["exc"] is not None:
+    if r["exc"] is not None and not (case.get("fail") and n >= 3 and r["exc"].get("same_object")):
         raise Violation(f"{what}: restricted evaluation raised {r['exc']['type']}: {r['exc']['msg'][:300]}", case)
+    if r["exc"] is not None:
+        what += f" ({case['fail']['node']} raised {case['fail']['exc']})"
+    if n < 5 and out.get("paths_changed"):
+        raise Violation(f"{what}: the paths {out['paths_changed']} serve something else (or appeared / disappeared) after an evaluation that did not request the path_commit stage", case)
     if n < 3:  # EVAL not requested: dry run
         if r["log"]:
             raise Violation(f"{what}: user functions ran in an evaluation restricted to the analysis stage: {r['log']}", case)
@@ -154,7 +199,11 @@ def check_case(case, ev=None, scratch=None):
         for tag, o in (("with", a), ("without", b)):
             if o["full"]["exc"] is not None:
                 raise Violation(f"{what}: the later full evaluation ({tag} the restricted run) raised {o['full']['exc']['type']}: {o['full']['exc']['msg'][:300]}", case)
-        exp, _ = M.expected_value(case["prog"], case["root"])
+        committed = {}
+        if case.get("pre_entry") is not None:
+            _, itp = M.expected_value(case["prog"], case["pre_entry"])
+            committed = dict(itp.kept)
+        exp, _ = M.expected_value(case["prog"], case["root"], committed=committed)
         if a["full"]["value"] != exp:
             raise Violation(f"{what}: full evaluation after the restricted run returned {a['full']['value']!r}, expected {exp!r}", case)
         if a["full"]["sigs"] != b["full"]["sigs"]:
@@ -172,7 +221,8 @@ def check_case(case, ev=None, scratch=None):
             ev.case({"stages": spell_stages(case["nstages"], case["spell"]), "history": case["history"], "store": case["store"],
                      "program": c01.slim({"prog": case["prog"], "store": None, "steps": []})["program"]},
                     len(sites) >= 2 and case["history"] != "fresh",
-                    features=[f"nstages{case['nstages']}", "spell:" + case["spell"], "history:" + case["history"], "store:" + case["store"][0]],
+                    features=[f"nstages{case['nstages']}", "spell:" + case["spell"], "history:" + case["history"], "store:" + case["store"][0]]
+                    + (["loads-earlier-path"] if case.get("pre_entry") is not None else []) + (["user-failure-in-restricted-run"] if a.get("restricted", {}).get("exc") else []),
                     key=[M.pkey(case["prog"]), case["nstages"], case["spell"], case["history"], case["store"]])
     finally:
         if own:
